@@ -677,7 +677,8 @@ pub fn scenarios() -> Vec<Scenario>
 
 /// (name, source with `@` standing for the position in the history, has main, expected stdout,
 /// struct names whose LLVM type may be renamed)
-pub const KINDS: [(&str, &str, bool, &str); 9] = [
+pub const KINDS: [(&str, &str, bool, &str); 10] = [
+	("opaque structure and a function over a pointer to it", "pub struct Handle;\npub fn generation(h: &Handle) -> i32\n{\n\treturn: 1\n}\n", false, ""),
 	("comment only", "// nothing to see here\n", false, ""),
 	("main printing", "fn helper() -> i32\n{\n\treturn: 7\n}\nfn main() -> u8\n{\n\tprint!(\"main \", helper(), \" \", true, \"\\n\");\n\treturn: 0\n}\n", true, "main 7 true\n"),
 	("struct Hidden {a} and a public user", "struct Hidden\n{\n\ta: i32,\n}\nfn helper(h: Hidden) -> i32\n{\n\treturn: h.a\n}\npub fn use_small() -> i32\n{\n\tvar h = Hidden { a: 5 };\n\treturn: helper(h)\n}\n", false, ""),
